@@ -25,9 +25,9 @@ def build(tier, seed, exclude):
     g.raw(HELPERS)
     quick = tier == "quick"
     to = 110 if quick else 600
-    params = ", ".join(f"c{i}: int" for i in range(NS))
-    pre = [" and ".join(f"0 <= c{i} < 4" for i in range(NS))]
-    ch = "[" + ", ".join(f"T.real(c{i})" for i in range(NS)) + "]"
+    params = "sd: int"
+    pre = [f"0 <= sd < {4 ** NS}"]
+    ch = f"AP.S.decode(T.real(sd), {NS}, 4)"
     for shape, nbits in (("indep", 2), ("forkjoin", 2), ("splitfail", 1)):
         for bits in range(1, 2 ** nbits):
             g.cond(f"h_{shape}_fail{bits}", params, pre, f"""
